@@ -234,3 +234,31 @@ func VerifStructAnon() {
 	}
 	verifAssert(specMatch(r1, r2), "C18:result-differs-from-generic-document")
 }
+
+// VerifStructCompiled (C12): a compiled expression searched over a struct
+// document must not write to anything that existed before the call.
+func VerifStructCompiled() {
+	expr := verifParamStr("expr")
+	use := verifParamStr("use")
+	jp, cerr := Compile(expr)
+	if cerr != nil {
+		verifUnreachable("C12:template-does-not-compile")
+		return
+	}
+	t := verifMakeT(use)
+	var doc interface{} = t
+	if verifParam("ptr") == 1 {
+		doc = &t
+	}
+	before := ""
+	if verifNative() {
+		before = verifFingerprint(jp)
+	}
+	verifFreeze()
+	_, err := jp.Search(doc)
+	verifThaw()
+	verifNote("err", err != nil)
+	if verifNative() {
+		verifAssert(verifFingerprint(jp) == before, "frame-write")
+	}
+}
